@@ -21,7 +21,7 @@ VARIABLES l, m, viol
 vars == <<l, m, viol>>
 
 M0 == [run |-> "", inb |-> << >>, cmds |-> << >>, di |-> 0, ob |-> << >>, unfl |-> 0, cbs |-> << >>, cur |-> 0,
-       long |-> << >>, fault |-> FALSE, badfrag |-> FALSE, done |-> FALSE, blocked |-> FALSE,
+       long |-> << >>, reg |-> << >>, fault |-> FALSE, badfrag |-> FALSE, done |-> FALSE, blocked |-> FALSE,
        n |-> [cmds |-> 0, cbs |-> 0, units |-> 0, rows |-> 0, pvs |-> 0, pkts |-> 0, rds |-> 0, bytes_in |-> 0, bytes_out |-> 0, big_msgs |-> 0]]
 Init == l = 1 /\ m = M0 /\ viol = {}
 
@@ -53,6 +53,37 @@ SkipTo(mm) ==
                            !.long = IF k = 0 THEN Append(@, [id |-> id, param |-> pi, data |-> data])
                                     ELSE [@ EXCEPT ![k].data = RCat(@, data)]])
     ELSE SkipTo([mm EXCEPT !.di = i])
+
+\* ---- inline parameters of a (giant) COM_STMT_EXECUTE (C08): restricted decoder over runs ----
+\* registry of prepared statements: sequence of [id, np]
+RegNp(R, id) == LET S == {i \in 1..Len(R) : R[i].id = id} IN IF S = {} THEN -1 ELSE R[CHOOSE i \in S : \A j \in S : j <= i].np
+StrTypes == {0, 15, 16, 245, 246, 247, 248, 249, 250, 251, 252, 253, 254, 255}
+FixLen(t) == CASE t = 1 -> 1 [] t \in {2, 13} -> 2 [] t \in {3, 9, 4} -> 4 [] t \in {8, 5} -> 8 [] OTHER -> -1
+RECURSIVE BigVals(_, _, _, _, _, _, _)
+\* walk the value area: j = parameter index (1-based), off = 1-based position in p; acc = sequence of expectations
+BigVals(p, hd, np, bl, j, off, acc) ==
+  IF j > np THEN [ok |-> TRUE, vals |-> acc]
+  ELSE LET isnull == (hd[11 + ((j - 1) \div 8)] \div (2 ^ ((j - 1) % 8))) % 2 = 1
+           t == hd[12 + bl + 2 * (j - 1)]
+       IN IF isnull THEN BigVals(p, hd, np, bl, j + 1, off, Append(acc, [kind |-> "null"]))
+          ELSE IF t \in StrTypes THEN
+             LET pre == RExpand(RSub(p, off, 9))
+                 h == LenencAt(pre, 1)
+             IN IF ~h.ok \/ ~U64Small(h.v) THEN [ok |-> FALSE, vals |-> acc]
+                ELSE LET n == U64Int(h.v) hl == h.next - 1 IN
+                     BigVals(p, hd, np, bl, j + 1, off + hl + n, Append(acc, [kind |-> "bytes", b |-> RSub(p, off + hl, n), n |-> n]))
+          ELSE IF FixLen(t) > 0 THEN BigVals(p, hd, np, bl, j + 1, off + FixLen(t), Append(acc, [kind |-> "fixed"]))
+          ELSE [ok |-> FALSE, vals |-> acc]
+\* expectation for an execution whose parameters are all bound in this command (new-params-bound = 1) and none
+\* of which is supplied as long data; anything else is left to the flat monitor
+BigExec(p, np, haslong) ==
+  IF np <= 0 \/ np > 16 \/ haslong THEN [ok |-> FALSE, vals |-> << >>]
+  ELSE LET bl == (np + 7) \div 8
+           hlen == 11 + bl + 2 * np
+       IN IF RLen(p) < hlen THEN [ok |-> FALSE, vals |-> << >>]
+          ELSE LET hd == RExpand(RTake(p, hlen)) IN
+               IF hd[11 + bl] # 1 THEN [ok |-> FALSE, vals |-> << >>]
+               ELSE BigVals(p, hd, np, bl, 1, hlen + 1, << >>)
 
 \* ---- expected encodings (exact) of the big messages ----
 CellEnc(c) == IF c.t = "null" THEN <<<<251, 1>>>> ELSE RLenencStr(c.b)
@@ -188,7 +219,11 @@ Step ==
                                         THEN {V("C01", l, "argument of " \o e.name \o " differs from the bytes the client sent (" \o ToString(RLen(p) - 1) \o " bytes, " \o ToString(mm.cmds[i].n) \o " packets)"),
                                               V("C02", l, "argument of " \o e.name \o " differs from what the client sent")} ELSE {})
                                      ELSE (IF RLen(p) < 5 \/ e.id # RExpand(RSub(p, 2, 4)) THEN {V("C02", l, "statement id differs")} ELSE {})
-                         IN /\ m' = [mm EXCEPT !.di = i, !.cbs = Append(@, [name |-> e.name, prog |-> << >>, cmd |-> i]), !.cur = Len(mm.cbs) + 1,
+                             xid == IF e.name = "on_execute" /\ RLen(p) >= 5 THEN RExpand(RSub(p, 2, 4)) ELSE << >>
+                             xnp == IF xid = << >> THEN -1 ELSE RegNp(mm.reg, xid)
+                             exp == IF xnp < 0 THEN [ok |-> FALSE, vals |-> << >>]
+                                    ELSE BigExec(p, xnp, \E k \in 1..Len(mm.long) : mm.long[k].id = xid)
+                         IN /\ m' = [mm EXCEPT !.di = i, !.cbs = Append(@, [name |-> e.name, prog |-> << >>, cmd |-> i, exp |-> exp, npv |-> 0, np |-> xnp]), !.cur = Len(mm.cbs) + 1,
                                                !.n.cbs = @ + 1]
                             /\ viol' = viol \cup vname \cup varg
        [] e.e = "pv" ->
@@ -197,19 +232,30 @@ Step ==
             ELSE LET c == m.cmds[m.cbs[m.cur].cmd]
                      id == RExpand(RSub(c.p, 2, 4))
                      k == LongFind(m.long, id, e.idx)
-                 IN /\ m' = [m EXCEPT !.n.pvs = @ + 1]
+                     x == m.cbs[m.cur].exp
+                 IN /\ m' = [m EXCEPT !.n.pvs = @ + 1, !.cbs[m.cur].npv = @ + 1]
                     /\ viol' = viol \cup
                          (IF k # 0 /\ (e.inner.t # "bytes" \/ e.inner.b # m.long[k].data)
                           THEN {V("C17", l, "long data delivered differs from the concatenation of the chunks sent"),
                                 V("C01", l, "long-data bytes seen by the shim differ from the bytes the client sent")} ELSE {})
+                         \cup (IF x.ok /\ e.idx + 1 <= Len(x.vals) /\ x.vals[e.idx + 1].kind = "bytes"
+                                  /\ (e.inner.t # "bytes" \/ e.inner.b # x.vals[e.idx + 1].b)
+                               THEN {V("C08", l, "inline parameter value differs from the bytes the client sent (" \o ToString(x.vals[e.idx + 1].n) \o " bytes)"),
+                                     V("C01", l, "parameter bytes seen by the shim differ from the bytes the client sent")} ELSE {})
+                         \cup (IF x.ok /\ e.idx + 1 <= Len(x.vals) /\ x.vals[e.idx + 1].kind = "null" /\ e.inner.t # "null"
+                               THEN {V("C08", l, "a NULL parameter was delivered as a value")} ELSE {})
        [] e.e = "w" ->
             IF m.cur = 0 THEN UNCHANGED <<m, viol>>
-            ELSE m' = [m EXCEPT !.cbs[m.cur].prog = Append(@, [op |-> e.op, res |-> e.res, st |-> e.st])] /\ UNCHANGED viol
+            ELSE m' = [m EXCEPT !.cbs[m.cur].prog = Append(@, [op |-> e.op, res |-> e.res, st |-> e.st, kind |-> IF "kind" \in DOMAIN e THEN e.kind ELSE ""]),
+                                !.reg = IF e.op.op = "reply" /\ e.res = "ok" THEN Append(@, [id |-> e.op.id, np |-> Len(e.op.params)]) ELSE @] /\ UNCHANGED viol
        [] e.e = "cb_ret" ->
             \* long data is consumed by the execution
             LET isexec == m.cur # 0 /\ e.name = "on_execute"
                 id == IF isexec THEN RExpand(RSub(m.cmds[m.cbs[m.cur].cmd].p, 2, 4)) ELSE << >>
-            IN m' = [m EXCEPT !.cur = 0, !.long = IF isexec THEN SelectSeq(@, LAMBDA x : x.id # id) ELSE @] /\ UNCHANGED viol
+            IN /\ m' = [m EXCEPT !.cur = 0, !.long = IF isexec THEN SelectSeq(@, LAMBDA x : x.id # id) ELSE @]
+               /\ viol' = viol \cup (IF isexec /\ m.cbs[m.cur].exp.ok /\ e.ret.k = "ok" /\ m.cbs[m.cur].npv # m.cbs[m.cur].np /\ ~m.fault
+                                      THEN {V("C08", l, "number of parameters delivered differs from the number declared (" \o ToString(m.cbs[m.cur].npv) \o " of " \o ToString(m.cbs[m.cur].np) \o ")")}
+                                      ELSE {})
        [] e.e = "end" ->
             LET mm == SkipTo(m)
                 r == RMessages(mm.ob)
@@ -224,6 +270,10 @@ Step ==
                         ELSE IF ~expectErr /\ e.result # "ok" /\ ~mm.blocked
                              THEN {V("C19", l, "run_on returned an error on a fault-free conformant conversation"),
                                    V("C01", l, "a well-formed command stream was not delivered to the end: run_on gave up (" \o ToString(Len(mm.cmds) - mm.di) \o " commands never dispatched)")}
+                                  \* long data for a live statement that no execution ever received
+                                  \cup (IF mm.long # << >> \/ (\E i \in (mm.di + 1)..Len(mm.cmds) : First(mm.cmds[i].p) = 24)
+                                        THEN {V("C17", l, "long data sent for a prepared statement was never delivered: the connection ended with an error on a conformant conversation"),
+                                              V("C10", l, "a prepared statement stopped being usable although it was never closed")} ELSE {})
                                   \cup (IF mm.di < Len(mm.cmds) /\ mm.cmds[mm.di + 1].n > 1 /\ mm.cmds[mm.di + 1].seqN < mm.cmds[mm.di + 1].seq0
                                         THEN {V("C05", l, "a request whose fragment sequence ids wrap from 255 to 0 was not answered")} ELSE {})
                         ELSE {}
